@@ -132,3 +132,52 @@ def run_pipeline(case, pipeline):
             pass
         return {"error": type(exc).__name__, "message": str(exc)[:300]}
     return l, r, m
+
+
+def run_and_observe(case, pipeline):
+    """Run the real machine step by step (`run_prepare`, then `machine.run(step, cfg)` for every step of the
+    ordered dict `pipeline`, `run_exit`) and snapshot what each step leaves behind:
+      state cost_volume -> {"cv": array, "disp": coords}            (left; "cv_right" when validation is configured)
+      state disp_map    -> {"map": disparity_map, "mask": validity_mask, "interval": disparity_interval}
+    Returns {"steps": [(name, snapshot), ...]} or {"error": ..., "at": step, "steps": [...]}."""
+    from pandora.state_machine import PandoraMachine
+
+    logging.getLogger("transitions").setLevel(logging.ERROR)
+    left = make_dataset(case, "left")
+    right = make_dataset(case, "right")
+    cfg = {"pipeline": copy.deepcopy(pipeline)}
+    m = PandoraMachine()
+    out = []
+    at = "run_prepare"
+    try:
+        m.run_prepare(copy.deepcopy(cfg), left, right)
+        try:
+            for name in pipeline:
+                at = name
+                m.run(name, cfg)
+                snap = {"state": m.state}
+                if m.state == "cost_volume":
+                    snap["cv"] = np.array(m.left_cv["cost_volume"].data, dtype=np.float64)
+                    snap["disp"] = [float(d) for d in m.left_cv.coords["disp"].data]
+                    snap["type_measure"] = m.left_cv.attrs.get("type_measure")
+                    if m.right_disp_map == "cross_checking_accurate":
+                        snap["cv_right"] = np.array(m.right_cv["cost_volume"].data, dtype=np.float64)
+                elif m.state == "disp_map":
+                    d = m.left_disparity
+                    snap["map"] = np.array(d["disparity_map"].data, dtype=np.float64)
+                    snap["mask"] = np.array(d["validity_mask"].data).astype(np.int64)
+                    if "disparity_interval" in d:
+                        snap["interval"] = [float(v) for v in d["disparity_interval"].data]
+                    snap["cv"] = np.array(m.left_cv["cost_volume"].data, dtype=np.float64)
+                    if m.right_disp_map == "cross_checking_accurate" and "disparity_map" in m.right_disparity:
+                        r = m.right_disparity
+                        snap["map_right"] = np.array(r["disparity_map"].data, dtype=np.float64)
+                        snap["mask_right"] = np.array(r["validity_mask"].data).astype(np.int64)
+                        if "disparity_interval" in r:
+                            snap["interval_right"] = [float(v) for v in r["disparity_interval"].data]
+                out.append((name, snap))
+        finally:
+            m.run_exit()
+    except Exception as exc:  # pylint: disable=broad-except
+        return {"error": type(exc).__name__, "message": str(exc)[:300], "at": at, "steps": out}
+    return {"steps": out}
